@@ -30,7 +30,7 @@ type snapView struct {
 
 // S and M expose a snapshot view to checks.
 func (v *snapView) S() *leveldb.Snapshot { return v.s }
-func (v *snapView) M() *model.KV          { return v.m }
+func (v *snapView) M() *model.KV         { return v.m }
 
 type iterView struct {
 	it iterator.Iterator
@@ -138,7 +138,26 @@ func scribble(b []byte) {
 
 // argument buffers are freshly allocated per call so that scribbling cannot alias the
 // harness's own strings.
-func buf(s string) []byte { return append(make([]byte, 0, len(s)+3), s...) }
+// The buffers have 16 bytes of spare capacity filled with a sentinel: a callee that appends to
+// the caller's slice (instead of copying it) writes there, and spareIntact sees it.
+func buf(s string) []byte {
+	b := make([]byte, len(s), len(s)+16)
+	copy(b, s)
+	sp := b[len(s):cap(b)]
+	for i := range sp {
+		sp[i] = 0xA5
+	}
+	return b
+}
+
+func spareIntact(b []byte) bool {
+	for _, c := range b[len(b):cap(b)] {
+		if c != 0xA5 {
+			return false
+		}
+	}
+	return true
+}
 
 func (w *World) record(b model.Batch, err error) {
 	w.Issued = append(w.Issued, b)
@@ -166,8 +185,8 @@ func (w *World) opErr(op string, err error) {
 func (w *World) put(k, v string) {
 	kb, vb := buf(k), buf(v)
 	err := w.DB.Put(kb, vb, w.wo())
-	if string(kb) != k || string(vb) != v {
-		w.violate("Put modified its argument buffers")
+	if string(kb) != k || string(vb) != v || !spareIntact(kb) || !spareIntact(vb) {
+		w.violate("Put modified its argument buffers (or the memory behind them)")
 	}
 	if w.Scribble {
 		scribble(kb)
@@ -184,8 +203,8 @@ func (w *World) put(k, v string) {
 func (w *World) del(k string) {
 	kb := buf(k)
 	err := w.DB.Delete(kb, w.wo())
-	if string(kb) != k {
-		w.violate("Delete modified its argument buffer")
+	if string(kb) != k || !spareIntact(kb) {
+		w.violate("Delete modified its argument buffer (or the memory behind it)")
 	}
 	if w.Scribble {
 		scribble(kb)
@@ -559,8 +578,8 @@ func (w *World) checkReads(what string, g getter, m *model.KV) {
 	for _, p := range w.Probes {
 		kb := buf(p)
 		v, err := g.Get(kb, nil)
-		if string(kb) != p {
-			w.violate("%s: Get modified its key buffer", what)
+		if string(kb) != p || !spareIntact(kb) {
+			w.violate("%s: Get modified its key buffer (or the memory behind it)", what)
 		}
 		want, ok := m.Get(p)
 		switch {
@@ -585,6 +604,9 @@ func (w *World) checkReads(what string, g getter, m *model.KV) {
 			w.violate("%s: Has(%q) error %v", what, p, herr)
 		} else if h != ok {
 			w.violate("%s: Has(%q) = %v, model says %v", what, p, h, ok)
+		}
+		if !spareIntact(kb) {
+			w.violate("%s: Has wrote behind its key buffer", what)
 		}
 		if w.Scribble {
 			scribble(kb)
@@ -633,6 +655,29 @@ func (w *World) scanBoth(what string, it iterator.Iterator, want []model.Pair) {
 	if i != len(want) {
 		w.violate("%s: forward scan ended after %d pairs, model has %d", what, i, len(want))
 		return
+	}
+	if w.Scribble {
+		// Seek with a key that is a prefix of a larger caller buffer: the callee must neither
+		// change it nor write behind it, and may not keep it (it is overwritten right after)
+		for j, p := range want {
+			kb := buf(p.K)
+			ok := it.Seek(kb)
+			if string(kb) != p.K || !spareIntact(kb) {
+				w.violate("%s: Seek(%q) modified its key buffer (or the memory behind it)", what, p.K)
+				return
+			}
+			scribble(kb)
+			if !ok || string(it.Key()) != want[j].K || string(it.Value()) != want[j].V {
+				w.violate("%s: Seek(%q) positioned at %q=%q (ok=%v), model %q=%q", what, p.K, it.Key(), it.Value(), ok, want[j].K, want[j].V)
+				return
+			}
+			if j+1 < len(want) {
+				if !it.Next() || string(it.Key()) != want[j+1].K {
+					w.violate("%s: Next after Seek(%q) with a reused key buffer went to %q, model %q", what, p.K, it.Key(), want[j+1].K)
+					return
+				}
+			}
+		}
 	}
 	if err := it.Error(); err != nil {
 		w.violate("%s: iterator error %v", what, err)
